@@ -210,6 +210,10 @@ def run(chk, prog):
                       "%s:fill-rows:%s" % (cls, fill_rows))
         else:
             for lb in sorted(lastbunch_values(prog, cls, lb0), key=str):
+                if lb is None:
+                    chk.fail("R2", site, "%s (y-kick): _lastbunch has no value from the KickMap constructor: which rows the reader takes for bunch n is indeterminate" % cls,
+                             "%s:lastbunch-uninitialised" % cls.split("::")[-1])
+                    continue
                 want = sp.expand((lb + 1) * N)
                 chk.check(sp.expand(fill_rows - want) == 0, "R2", site,
                           "%s (y-kick) fills offset rows [0,%s); the reader consumes rows [0,(_lastbunch+1)*N) with _lastbunch = %s"
